@@ -94,6 +94,39 @@ def _raw_expr(du, e, at, memo, depth=0):
     return all(rs)
 
 
+def _voltage_slice(du, fi):
+    """ids of the statements in the backward slice of the array `read` returns (first element of a returned tuple); None when
+    the returns are not uniform enough to tell."""
+    seeds = []
+    for r in returns_of(fi.node):
+        if r.value is None:
+            continue
+        first = r.value.elts[0] if isinstance(r.value, ast.Tuple) and r.value.elts else r.value
+        seeds.append((first, r))
+    if not seeds:
+        return None
+    out = set()
+    work = []
+    for e, at in seeds:
+        out.add(id(at))
+        work += [(n.id, at) for n in ast.walk(e) if isinstance(n, ast.Name) and isinstance(n.ctx, ast.Load)]
+    seen = set()
+    while work:
+        nm, at = work.pop()
+        for d in du.reaching(nm, at):
+            if d.idx in seen or d.stmt is None or d.kind == "param":
+                continue
+            seen.add(d.idx)
+            out.add(id(d.stmt))
+            srcs = [d.stmt.value] if isinstance(d.stmt, (ast.Assign, ast.AugAssign, ast.AnnAssign)) and d.stmt.value is not None else \
+                ([d.stmt.value] if isinstance(d.stmt, ast.Expr) else [])
+            if isinstance(d.stmt, ast.AugAssign):
+                srcs.append(d.stmt.target)
+            for v in srcs:
+                work += [(n.id, d.stmt) for n in ast.walk(v) if isinstance(n, ast.Name) and n.id != "self"]
+    return out
+
+
 def d1_single_selector(ctx):
     ctx.rule("D1", "Reader.read gathers data columns and gains with one selector = raw_channel_order[csel]; result scaled "
                    "after float32 conversion and returned")
@@ -106,7 +139,7 @@ def d1_single_selector(ctx):
     rawloc = {}
     for s_ in subs:
         r0 = chain_root(s_)[0]
-        if r0 is not None and r0 != RAW and "." not in r0 and isinstance(s_.value, ast.Name):
+        if r0 is not None and r0 != RAW and "." not in r0 and isinstance(s_.value, (ast.Name, ast.Call)):
             rr = _raw_expr(du, s_, s_, memo)
             if rr is not None:
                 rawloc[id(s_)] = rr
@@ -114,6 +147,15 @@ def d1_single_selector(ctx):
     # the gather that selects columns (if the raw rows are first held in a local, it is the read of that local)
     data_sites = [s for s in data_sites if _col_selectors(s)] or data_sites
     gain_sites = outermost([s for s in subs if chain_root(s)[0] in GAINS], par)
+    # only what flows into the returned voltage array counts (the sync decoding may gather its own columns of the same chunk)
+    sl = _voltage_slice(du, fi)
+    if sl is not None:
+        def _in_slice(site_):
+            st_ = du.cfg.node_for(site_).stmt
+            return st_ is not None and id(st_) in sl
+        if any(_in_slice(x) for x in data_sites) and any(_in_slice(x) for x in gain_sites):
+            data_sites = [x for x in data_sites if _in_slice(x)]
+            gain_sites = [x for x in gain_sites if _in_slice(x)]
     if not data_sites:
         raise AnchorMissing("Reader.read: no read of self._raw found")
     if not gain_sites:
